@@ -707,4 +707,124 @@ mod proofs {
     fn prio_reclaim_frame_behind() {
         reclaim_frame_case(true);
     }
+
+    // ------------------------------------------------------------------ pop_frame (C02, C01, C16, C17, C04)
+    //
+    // The emission step.  One stream on pending_send.  Thorough tier: the body moves and drops `Frame`
+    // values inside a `Store`, which costs CBMC minutes and gigabytes (see README, "Performance lessons").
+
+    // DATA arm: a stream that may send, ONE queued DATA frame of symbolic length / END_STREAM, symbolic
+    // windows, symbolic max frame size.
+    //   len = min(sz, max_frame, stream available) ; emitted only if len <= stream window (peer's view)
+    //   stream window, stream available, connection window all drop by exactly len; pool unchanged
+    //   len > 0  ==> both windows were > 0 ; at a non-positive window only zero-length DATA leaves
+    //   END_STREAM(emitted) <=> END_STREAM(queued) && whole frame emitted; Prioritized remembers the original
+    //   buffered / requested drop by len.
+    // @harness id=prio_pop_frame_data props=C02,C01,C16,C04,C08 kind=bounded bound=streams=1,queued_frames=1 tier=thorough fn=Prioritize::pop_frame timeout=5400
+    #[kani::proof]
+    #[kani::unwind(3)]
+    fn prio_pop_frame_data() {
+        let (mut store, key, mut p) = world(mk_state(Abs::Open { local: true, remote: kani::any() }));
+        let mut counts = any_counts(any_peer());
+        let mut buffer: Buffer<PFrame> = Buffer::new();
+        let sz: usize = kani::any();
+        let eos: bool = kani::any();
+        kani::assume(sz <= MAX_WINDOW_SIZE as usize); // Prioritize::send_data refuses larger payloads
+        {
+            let s = peek_mut(&mut store, key).unwrap();
+            kani::assume(wf_send(s));
+            s.is_pending_push = false;
+            kani::assume(s.ref_count > 0); // a handle exists: not released inside transition_after
+            s.buffered_send_data = sz; // I-cap: buffered == sum of queued DATA
+            kani::assume(s.requested_send_capacity as usize >= sz || true);
+            s.pending_send.push_back(&mut buffer, data_frame(StreamId::from(ID), sz, eos).into());
+        }
+        {
+            let mut ptr = store.resolve(key);
+            prio_push_pending_send(&mut p, &mut ptr);
+        }
+        let (w0, a0, req0) = {
+            let s = peek(&store, key).unwrap();
+            (raw(&s.send_flow).0, raw(&s.send_flow).1, s.requested_send_capacity)
+        };
+        kani::assume(a0 as i64 <= req0 as i64 && (core::cmp::min(sz as i64, a0 as i64)) <= req0 as i64);
+        let (cw0, ca0) = prio_flow(&p);
+        kani::assume(ca0 as i64 + a0 as i64 <= cw0 as i64); // I-send-pool: assigned capacity is backed by the connection window
+        let max_len: usize = kani::any();
+        kani::assume(max_len >= 16_384 && max_len <= (1 << 24) - 1);
+        let out = p.pop_frame(&mut buffer, &mut store, max_len, &mut counts);
+        let s1 = peek_mut(&mut store, key).unwrap();
+        let (w1, a1) = raw(&s1.send_flow);
+        let (cw1, ca1) = prio_flow(&p);
+        let want_len = core::cmp::min(core::cmp::min(sz, max_len), a0 as usize);
+        let blocked = (sz > 0 && a0 == 0) || (want_len > 0 && want_len as i64 > (if w0 < 0 { 0 } else { w0 as i64 }));
+        if blocked {
+            assert!(out.is_none(), "prio.pop_frame.nothing_emitted_without_window");
+            assert!((w1, a1, cw1, ca1) == (w0, a0, cw0, ca0), "prio.pop_frame.blocked_changes_no_window");
+            let back = s1.pending_send.pop_front(&mut buffer);
+            assert!(matches!(back, Some(Frame::Data(ref d)) if d.payload().rem == sz && d.is_end_stream() == eos), "prio.pop_frame.blocked_frame_stays_queued_unmodified");
+            std::mem::forget(back);
+        } else {
+            assert!(matches!(out, Some(Frame::Data(_))), "prio.pop_frame.data_frame_emitted");
+            if let Some(Frame::Data(ref d)) = out {
+                let len = d.payload().inner.limit();
+                assert!(len == want_len, "prio.pop_frame.len_is_min_of_size_max_frame_and_capacity");
+                assert!(len <= max_len, "prio.pop_frame.len_le_max_frame_size");
+                assert!(len as i64 <= (if w0 < 0 { 0 } else { w0 as i64 }) && len as i64 <= cw0 as i64, "prio.pop_frame.len_within_both_windows");
+                assert!(len == 0 || (w0 > 0 && cw0 > 0), "prio.pop_frame.nonempty_data_needs_positive_windows");
+                assert!(w1 as i64 == w0 as i64 - len as i64 && a1 as i64 == a0 as i64 - len as i64, "prio.pop_frame.stream_window_and_capacity_minus_len");
+                assert!(cw1 as i64 == cw0 as i64 - len as i64 && ca1 == ca0, "prio.pop_frame.conn_window_minus_len_pool_unchanged");
+                assert!(d.is_end_stream() == (eos && len == sz), "prio.pop_frame.end_stream_only_on_the_last_piece");
+                assert!(d.payload().end_of_stream == eos && d.payload().stream == key, "prio.pop_frame.remembers_original_end_stream_and_stream");
+                assert!(d.payload().inner.get_ref().rem == sz, "prio.pop_frame.payload_not_advanced_before_write");
+                assert!(s1.buffered_send_data == sz - len && s1.requested_send_capacity as i64 == req0 as i64 - len as i64, "prio.pop_frame.buffered_and_requested_minus_len");
+            }
+            assert!(s1.pending_send.is_empty(), "prio.pop_frame.frame_left_the_queue");
+            assert!(prio_in_flight(&p) == (0, None), "prio.pop_frame.in_flight_slot_is_the_callers");
+        }
+        kani::cover!(!blocked && want_len > 0 && want_len < sz, "cover.split");
+        kani::cover!(!blocked && sz == 0 && w0 < 0, "cover.zero_len_at_negative_window");
+        kani::cover!(blocked, "cover.blocked");
+        std::mem::forget(out);
+        forget_counts(counts);
+        std::mem::forget(store);
+        std::mem::forget(buffer);
+    }
+
+    // reset arm: queue empty + reset scheduled => exactly one RST_STREAM(id, code), and the state becomes a
+    // real reset so it can never be emitted twice.
+    // @harness id=prio_pop_frame_reset props=C17,C04,C08 kind=bounded bound=streams=1 tier=thorough fn=Prioritize::pop_frame timeout=5400
+    #[kani::proof]
+    #[kani::unwind(3)]
+    fn prio_pop_frame_reset() {
+        let code: u32 = kani::any();
+        let (mut store, key, mut p) = world(super::super::state::verif_kani::mk_scheduled(Reason::from(code)));
+        let mut counts = any_counts(any_peer());
+        let mut buffer: Buffer<PFrame> = Buffer::new();
+        {
+            let s = peek_mut(&mut store, key).unwrap();
+            kani::assume(wf_send(s));
+            s.is_pending_push = false;
+            s.is_counted = false;
+            kani::assume(s.ref_count > 0);
+        }
+        {
+            let mut ptr = store.resolve(key);
+            prio_push_pending_send(&mut p, &mut ptr);
+        }
+        let out = p.pop_frame(&mut buffer, &mut store, 16_384, &mut counts);
+        assert!(matches!(out, Some(Frame::Reset(ref r)) if r.stream_id() == StreamId::from(ID) && r.reason() == Reason::from(code)), "prio.pop_frame_reset.exactly_this_rst_stream");
+        let s1 = peek(&store, key).unwrap();
+        assert!(!s1.state.is_scheduled_reset() && cause_sig(&s1.state) == Some((0, ID, code, 1, 0)), "prio.pop_frame_reset.becomes_a_real_library_reset");
+        assert!(!s1.is_pending_send && pending_send_is_empty(&p), "prio.pop_frame_reset.not_rescheduled");
+        // a second call emits nothing
+        let again = p.pop_frame(&mut buffer, &mut store, 16_384, &mut counts);
+        assert!(again.is_none(), "prio.pop_frame_reset.never_twice");
+        kani::cover!(code == 8, "cover.cancel");
+        std::mem::forget(out);
+        std::mem::forget(again);
+        forget_counts(counts);
+        std::mem::forget(store);
+        std::mem::forget(buffer);
+    }
 }
